@@ -7,6 +7,7 @@ use std::collections::BTreeMap;
 
 pub mod idir;
 pub mod imb;
+pub mod imvt;
 pub mod ipm;
 pub mod itar;
 pub mod ivt;
